@@ -139,6 +139,7 @@ class Prop(common.PropertyCheck):
         try:
             a = FlowCal.io.FCSFile(path)
             b = FlowCal.io.FCSFile(path)
+            u = FlowCal.io.FCSFile(path)          # left untouched (no attribute read, no comparison) until the file has been replaced
             res = {'same_eq': bool(a == b), 'same_ne': bool(a != b), 'same_hash': hash(a) == hash(b)}
             d2 = bytearray(data)
             flipped = False
@@ -167,6 +168,8 @@ class Prop(common.PropertyCheck):
                     c = FlowCal.io.FCSFile(path)
                     res['diff_eq'] = bool(a == c)
                     res['diff_ne'] = bool(a != c)
+                    res['untouched_eq'] = bool(u == c)
+                    res['untouched_holds_original'] = bool(np.array_equal(np.asarray(u.data), np.asarray(a.data)))
                 except Exception as e:
                     res['diff_loaderr'] = type(e).__name__
             return res
@@ -189,6 +192,9 @@ class Prop(common.PropertyCheck):
                 return 'two loads of the same file do not compare equal (%s)' % impl
             if 'diff_eq' in impl and (impl['diff_eq'] or not impl['diff_ne']):
                 return 'loads of files differing in one %s compare equal' % case['flip']
+            if impl.get('untouched_eq') or impl.get('untouched_holds_original') is False:
+                return 'a load made before the file at its path was replaced (one %s differs) %s' % (
+                    case['flip'], 'compares equal to a load of the new content' if impl.get('untouched_eq') else 'does not hold the events it was loaded from')
             return None
         how = case['how']
         if not impl['is_sample']:
